@@ -65,22 +65,29 @@ func c13Real(raw json.RawMessage) any {
 	errAt := c13ErrSet(a.Errs)
 	out := &c13Out{}
 	deadline := time.Now().Add(40 * time.Second)
+	// a wedged run is evidence enough: stop the case there
+	wedged := func() bool {
+		if n := len(out.Runs); n > 0 && (out.Runs[n-1].Deadlock || out.Runs[n-1].Stuck != "") {
+			return true
+		}
+		return false
+	}
 	switch a.Mode {
 	case "script":
 		out.Runs = append(out.Runs, c13RunOne(a.c13Graph, errAt, c13ChooseScript(a.Script, c13ChooseFirst), maxSteps))
 	case "random":
-		for i := 0; i < a.Budget && time.Now().Before(deadline); i++ {
+		for i := 0; i < a.Budget && time.Now().Before(deadline) && !wedged(); i++ {
 			r := rand.New(rand.NewSource(a.Seed*7919 + int64(i)))
 			out.Runs = append(out.Runs, c13RunOne(a.c13Graph, errAt, c13ChooseRandom(r), maxSteps))
 		}
 	case "pct":
-		for i := 0; i < a.Budget && time.Now().Before(deadline); i++ {
+		for i := 0; i < a.Budget && time.Now().Before(deadline) && !wedged(); i++ {
 			r := rand.New(rand.NewSource(a.Seed*104729 + int64(i)))
 			out.Runs = append(out.Runs, c13RunOne(a.c13Graph, errAt, c13ChoosePCT(r, 1+i%3, 14*a.N+6), maxSteps))
 		}
 	case "dfs":
 		var prefix []string
-		for n := 0; n < a.Budget && time.Now().Before(deadline); n++ {
+		for n := 0; n < a.Budget && time.Now().Before(deadline) && !wedged(); n++ {
 			run := c13RunOne(a.c13Graph, errAt, c13ChooseScript(prefix, c13ChooseFirst), maxSteps)
 			out.Runs = append(out.Runs, run)
 			i := len(run.Choices) - 1
@@ -99,7 +106,7 @@ func c13Real(raw json.RawMessage) any {
 	case "completion":
 		var vprefix []string
 		rr := rand.New(rand.NewSource(a.Seed))
-		for n := 0; n < a.Budget && time.Now().Before(deadline); n++ {
+		for n := 0; n < a.Budget && time.Now().Before(deadline) && !wedged(); n++ {
 			var vch []string
 			var ven [][]string
 			visits := func(held []*c13G) *c13G {
@@ -447,7 +454,7 @@ func runC13(ctx *core.Ctx) {
 			for _, rev := range dirs {
 				for _, lim := range []int{0, 1} {
 					for _, errs := range [][]int{nil, {0}} {
-						both(c13Args{c13Graph: c13Graph{N: n, Edges: es, Reverse: rev, Limit: lim}, Errs: errs, Mode: "dfs", Budget: ctx.Pick(400, 6000)})
+						both(c13Args{c13Graph: c13Graph{N: n, Edges: es, Reverse: rev, Limit: lim}, Errs: errs, Mode: "dfs", Budget: ctx.Pick(200, 6000)})
 						ctx.Count("full-dfs")
 					}
 				}
